@@ -20,13 +20,38 @@ class FakeMessage:
             return False
         return self.msgstr or any(self.msgstr_plural.values())
 
+WS_NEAR = ['\x0b', '\x0c', '\r', '\x1c', '\x1f', '\x85', '\xa0', '\u2003', '\u3000', '\n', '\u200b']
+DIGIT_NEAR = ['\u0663', '\u00b2', '\uff11', '\u0967', '\u2460']
+
+def boundary_expr(rng):
+    """expressions whose period analysis gives (offset, period) around the 200-window, with and without a form index
+    that is produced only outside the window"""
+    A = rng.choice([100, 120, 150, 180, 190, 198, 199, 200, 201])
+    Pd = rng.choice([2, 10, 50, 90, 99, 100, 101, 150, 198, 199])
+    R = rng.randrange(Pd)
+    shape = rng.randrange(6)
+    if shape == 0:
+        return f'(n >= {A} && n%{Pd} == {R}) ? 1 : 0'
+    if shape == 1:
+        return f'n > {A} && n%{Pd} == {R}'
+    if shape == 2:
+        return f'n < {A} ? n%2 : n%{Pd} == {R} ? 2 : 1'
+    if shape == 3:
+        return f'n%{Pd} == {R} ? 1 : 0'
+    if shape == 4:
+        return f'n == {A} ? 2 : n%2'
+    return f'(n%{Pd})/{max(R, 1)}'
+
 def gen_header_value(rng, n_hint=None):
-    """Plural-Forms values from a grammar: junk × nplurals × blanks × expression × terminator, plus malformed ones"""
+    """Plural-Forms values from a grammar: junk × nplurals × blanks × expression × terminator, near-miss characters for
+    every character class of the header pattern and of the lexer, boundary expressions, malformed ones"""
     r = rng.random()
     exprs = list(G.REGISTRY_STYLE) + ['n', 'n/0', 'n%0', 'n-1', '1-n', 'n*4294967295', 'n+4294967295', 'n%3', 'n%2*2', 'n>5?1:0', '(n', 'n!', 'n?1', '',
                                        'n%7', 'n%200', 'n%199', 'n%198', '(n>100)*2', 'n==150?2:n%2', 'n<200?n%3:3', 'n>=200', 'n%4==3?3:n%2', '2', '7']
     if r < 0.15:
         e = G.render_min(G.gen_expr(rng, rng.randint(1, 4), [0, 1, 2, 3, 4, 5, 10, 11, 100, 198, 199, 200, 4294967295, 4294967296]), rng)
+    elif r < 0.4:
+        e = boundary_expr(rng)
     else:
         e = rng.choice(exprs)
     n = rng.choice([1, 1, 2, 2, 2, 3, 3, 4, 5, 6, 7, 10, 200, 0, '02', '', 'x', 3]) if n_hint is None or rng.random() < 0.3 else n_hint
@@ -34,6 +59,16 @@ def gen_header_value(rng, n_hint=None):
     rj = rng.choice(['', '', '', '', ' ', '\\n', ' x', ';', 'nplurals=1; plural=0;'])
     sep = rng.choice([' ', ' ', ' ', '', '\t', '  ', ' \t '])
     term = rng.choice([';', ';', ';', ''])
+    if rng.random() < 0.1:      # near misses of the pattern's character classes
+        k = rng.randrange(4)
+        if k == 0:
+            sep = rng.choice(['', ' ']) + rng.choice(WS_NEAR) + rng.choice(['', ' '])
+        elif k == 1:
+            n = rng.choice(DIGIT_NEAR) if rng.random() < 0.5 else str(n) + rng.choice(DIGIT_NEAR)
+        elif k == 2:
+            e = e.replace(' ', rng.choice(WS_NEAR), 1) if ' ' in e else e + rng.choice(WS_NEAR)
+        else:
+            e = e + rng.choice(DIGIT_NEAR)
     s = f'{lj}nplurals={n};{sep}plural={e}{term}{rj}'
     if rng.random() < 0.08:
         s = P.mutate(rng, s)
